@@ -15,7 +15,7 @@ From Coq Require Import List NArith ZArith Bool.
 From AV Require Import model.Proto model.Bits model.Lists model.Chain model.Program
   model.Heuristic model.Contfrac model.Decomp model.Opt model.Runs model.Binary model.Dict model.Ensemble
   proofs.C01Aux proofs.BinaryProofs proofs.DictProofs proofs.PrimitiveProofs proofs.ContfracProofs
-  proofs.EnsembleProofs.
+  proofs.EnsembleProofs proofs.EnsembleBounds.
 From AV Require proofs.DecompProofs.
 Import ListNotations.
 Open Scope Z_scope.
@@ -44,6 +44,13 @@ Theorem C01_execute_sound : forall a n orc r,
   evaluate (res_program r) = Ok (res_chain r).
 Proof. exact execute_sound. Qed.
 Print Assumptions C01_execute_sound.
+
+(* ... and no successful result is shorter than the doubling bound: at least log2_up n operations *)
+Theorem C01_result_ops_lower_bound : forall a n orc r,
+  execute a n orc = Ok r -> res_err r = None ->
+  Z.log2_up n <= Z.of_nat (length (res_program r)).
+Proof. exact execute_ops_lower_bound. Qed.
+Print Assumptions C01_result_ops_lower_bound.
 
 (* ---- L1: the binary method, unconditionally ---- *)
 Theorem C01_rtl_ok : forall n, 1 <= n ->
